@@ -926,3 +926,18 @@ mod tests {
         assert_eq!(err, RtcpWriteError::InvalidPadding { padding: 5 });
     }
 }
+
+/// Verification hooks: plain forwards to private items, no logic.
+#[cfg(feature = "verif-hooks")]
+pub mod verif_hooks {
+    use super::{SdesChunk, SdesItem};
+    use crate::RtcpParseError;
+
+    pub fn item_parse(data: &[u8]) -> Result<(SdesItem<'_>, usize), RtcpParseError> {
+        SdesItem::parse(data)
+    }
+
+    pub fn chunk_parse(data: &[u8]) -> Result<(SdesChunk<'_>, usize), RtcpParseError> {
+        SdesChunk::parse(data)
+    }
+}
